@@ -71,13 +71,42 @@ func keyOf(o *mach.Outcome) outcomeKey {
 		h *= 1099511628211
 	}
 	k.memSum = h
+	if o.Panic != "" {
+		// a run that died is identified by the kind and place of its panic
+		k = outcomeKey{pnc: panicKind(o.Panic) + "@" + o.PanicLoc}
+	}
 	if o.Budget {
 		k.cycles = 0 // the tick at which a hang is cut is not an observable of majorana
 	}
 	return k
 }
 
+// panicKind strips the numbers from the text of a Go panic: once a machine
+// has panicked (a C07/C01 matter), which byte of an out-of-range store the
+// runtime names first is not a result of the run.
+func panicKind(s string) string {
+	out := make([]byte, 0, len(s))
+	for i := 0; i < len(s); i++ {
+		if s[i] >= '0' && s[i] <= '9' {
+			if n := len(out); n == 0 || out[n-1] != '#' {
+				out = append(out, '#')
+			}
+			continue
+		}
+		out = append(out, s[i])
+	}
+	return string(out)
+}
+
 func diffOutcome(a, b *mach.Outcome) string {
+	if a.Panic != "" && b.Panic != "" {
+		// both runs died: the place and kind of the panic are compared, not
+		// the partial state left behind
+		if panicKind(a.Panic) != panicKind(b.Panic) || a.PanicLoc != b.PanicLoc {
+			return fmt.Sprintf("panic %q in %s vs %q in %s", a.Panic, a.PanicLoc, b.Panic, b.PanicLoc)
+		}
+		return ""
+	}
 	switch {
 	case a.Panic != b.Panic:
 		return fmt.Sprintf("panic %q vs %q", a.Panic, b.Panic)
@@ -284,6 +313,9 @@ func (w c08) Run(b api.Batch) *api.Result {
 				chk := func(cc *core.Case) string {
 					if len(cc.Prog.Insts) == 0 {
 						return ""
+					}
+					if ref := isa.Exec(cc.Prog, cc.Init, 20000, false); !ref.End.WellFormed() {
+						return "" // not an input of the property
 					}
 					bud := detBudget(cc.Prog, cc.Init)
 					o1, _, e1 := runPlain(cc.Cfg, cc.Prog, cc.Init, core.Sched{Mode: "identity"}, bud)
